@@ -26,11 +26,37 @@ func init() {
 var c05Along = []string{"sumalong", "maxalong", "minalong", "avgalong", "varalong", "stdalong", "meanalong"}
 
 func c05Data(k *fw.K, class int, shape []int) (*ref.T, string) {
-	switch class % 4 {
+	switch class % 5 {
 	case 0:
 		return Shuffled(k.Rng, Unique(k.Rng, shape, 0.1, 5)), "unique"
 	case 1:
 		return UniqueInts(k.Rng, shape), "integers"
+	case 4: // value patterns: all-equal, sorted, powers of two, denormals, very large magnitudes, a single zero
+		t := ref.Zeros(shape)
+		pat := k.Rng.Intn(6)
+		for i := range t.Data {
+			switch pat {
+			case 0:
+				t.Data[i] = -2.75
+			case 1:
+				t.Data[i] = float64(i) * 0.5
+			case 2:
+				t.Data[i] = -float64(i) * 0.25
+			case 3:
+				t.Data[i] = math.Ldexp(1, (i%30)-15)
+			case 4:
+				t.Data[i] = float64(1+i%9) * 5e-324
+			default:
+				t.Data[i] = float64(1+i%7) * 1e150
+				if i%2 == 1 {
+					t.Data[i] = -t.Data[i]
+				}
+			}
+		}
+		if n := len(t.Data); n > 2 && k.Rng.Intn(2) == 0 {
+			t.Data[k.Rng.Intn(n)] = 0
+		}
+		return t, []string{"all-equal", "ascending", "descending", "powers-of-two", "denormals", "1e150"}[pat]
 	case 3: // a large common offset relative to the spread (where one-pass variance formulas cancel catastrophically)
 		t := Shuffled(k.Rng, Unique(k.Rng, shape, 0.5, 4))
 		off := []float64{1e6, -3e8, 1e9, 1e7}[k.Rng.Intn(4)]
@@ -95,7 +121,7 @@ func runC05(c *fw.Ctx) {
 	for _, shape := range Shapes(1, R, 3) {
 		for dim := range shape {
 			for oi, op := range c05Along {
-				for class := 0; class < 4; class++ {
+				for class := 0; class < 5; class++ {
 					shape, dim, op, oi, class := shape, dim, op, oi, class
 					c.Case(func(k *fw.K) {
 						x, cname := c05Data(k, class, shape)
@@ -117,7 +143,7 @@ func runC05(c *fw.Ctx) {
 			shape := BigShape(k.Rng, 1, 600)
 			dim := k.Rng.Intn(len(shape))
 			oi := k.Rng.Intn(len(c05Along))
-			x, cname := c05Data(k, k.Rng.Intn(3), shape)
+			x, cname := c05Data(k, k.Rng.Intn(5), shape)
 			in := ref.Instr{Op: c05Along[oi], Dim: dim}
 			k.Case = map[string]any{"op": in.Op, "dim": dim, "shape": shape, "class": cname}
 			k.Key("%s/%s/%d/%s", in.Op, shapeKey(shape), dim, cname)
@@ -133,7 +159,7 @@ func runC05(c *fw.Ctx) {
 				dim = k.Rng.Intn(len(shape))
 			}
 			oi := k.Rng.Intn(len(c05Along))
-			x, cname := c05Data(k, k.Rng.Intn(4), shape)
+			x, cname := c05Data(k, k.Rng.Intn(5), shape)
 			in := ref.Instr{Op: c05Along[oi], Dim: dim}
 			k.Case = map[string]any{"op": in.Op, "dim": dim, "shape": shape, "class": cname}
 			k.Key("%s/%s/%d/%s", in.Op, shapeKey(shape), dim, cname)
@@ -162,7 +188,7 @@ func runC05(c *fw.Ctx) {
 		whole = append(whole, []int{n}, []int{2, n}, []int{n, 3})
 	}
 	for _, shape := range whole {
-		for class := 0; class < 4; class++ {
+		for class := 0; class < 5; class++ {
 			shape, class := shape, class
 			c.Case(func(k *fw.K) {
 				x, cname := c05Data(k, class, shape)
